@@ -205,14 +205,17 @@ def _speccopy(ctx):
 
 
 _tlc_n = [0]
+_tlc_lock = __import__('threading').Lock()
 
 
 def tlc(ctx, module, cfg, workers=1, heap='3g', timeout=1800, env=None, extra=(), deque=False,
         simulate=None, dump=None, seed=None, depth=None):
     """Run TLC on spec/<module>.tla with spec/<cfg>; returns parsed statistics and output."""
     d = _speccopy(ctx)
-    _tlc_n[0] += 1
-    meta = os.path.join(ctx.scratch, 'meta', '%s-%d-%d' % (module, os.getpid(), _tlc_n[0]))
+    with _tlc_lock:
+        _tlc_n[0] += 1
+        k = _tlc_n[0]
+    meta = os.path.join(ctx.scratch, 'meta', '%s-%d-%d' % (module, os.getpid(), k))
     os.makedirs(meta, exist_ok=True)
     jopts = ['-Xmx' + heap, '-Xss64m', '-XX:+UseParallelGC', '-XX:ParallelGCThreads=%d' % max(2, min(4, workers))]
     if deque:
